@@ -18,6 +18,11 @@ func LabelTarget(fn *ir.Function) error {
 			if _, found := target[n]; found {
 				return fmt.Errorf("duplicate label \"%s\"", n)
 			}
+			for _, p := range pending {
+				if p == n {
+					return fmt.Errorf("duplicate label \"%s\"", n)
+				}
+			}
 			pending = append(pending, n)
 		case *ir.Instruction:
 			for _, label := range pending {
